@@ -430,6 +430,158 @@ def per_configuration_stream(ctx, res):
             os.environ.pop("CINCO_T_C14P_PEERS", None)
 
 
+def every_kind_stream(ctx, res):
+    """(a) the variable goes through the field's whole validation for EVERY kind of field, those with a storage form of their own
+    (challenge, secure, bytes) included: with a validator of the application's own that refuses one text, that text in the variable
+    makes construction fail with a validation error naming the field, any other text is held in validated form (a digest that
+    verifies the variable for a challenge field); named and derived bindings, root and nested;
+    (b) an explicit override from the command line is an assignment: it wins against the variable, documents loaded later do not"""
+    import argparse
+    import os
+    import cincoconfig as cc
+    from cincoconfig.fields import DigestValue
+    refused = "same-as-user"
+
+    def policy(cfg, value):
+        text = value if isinstance(value, (str, bytes)) else None
+        if text in (refused, refused.encode()):
+            raise ValueError("the value is not allowed here")
+        if isinstance(value, DigestValue):
+            try:
+                value.challenge(refused)             # the policy of a password field: the secret must not be this text
+            except ValueError:
+                return value
+            raise ValueError("the value is not allowed here")
+        return value
+    kinds = {"string": lambda **kw: cc.StringField(**kw), "challenge": lambda **kw: cc.ChallengeField("sha256", **kw), "secure": lambda **kw: cc.SecureField(method="xor", **kw),
+             "any": lambda **kw: cc.Field(**kw), "hostname": lambda **kw: cc.HostnameField(**kw), "loglevel": lambda **kw: cc.LogLevelField(levels=["same-as-user", "info", "other-text"], **kw)}
+    tmp = ctx.tmpdir()
+    kp = os.path.join(tmp, "ek.key")
+    with open(kp, "wb") as fh:
+        fh.write(bytes(range(32)))
+    for kind, mk in kinds.items():
+        for binding in ("named", "derived", "nested-derived"):
+            for text in (refused, "other-text"):
+                for with_default in (False, True):
+                    kw = {"validator": policy}
+                    if with_default:
+                        kw["default"] = "info"
+                    s = cc.Schema(env="CINCO_T_C14K")
+                    if binding == "named":
+                        s.secret = mk(env="CINCO_T_C14K_NAMED", **kw)
+                        var, path = "CINCO_T_C14K_NAMED", "secret"
+                    elif binding == "derived":
+                        s.secret = mk(**kw)
+                        var, path = "CINCO_T_C14K_SECRET", "secret"
+                    else:
+                        s.auth.secret = mk(**kw)
+                        var, path = "CINCO_T_C14K_AUTH_SECRET", "auth.secret"
+                    os.environ[var] = text
+                    case = {"stream": "every-kind", "kind": kind, "binding": binding, "variable": text, "declares_default": with_default}
+                    res.case(stable(case), kind="every-kind:" + kind)
+                    try:
+                        try:
+                            cfg = s(key_filename=kp)
+                            err = None
+                        except Exception as e:  # noqa
+                            cfg, err = None, e
+                    finally:
+                        os.environ.pop(var, None)
+                    if text == refused:
+                        if err is None:
+                            res.violate("C14:invalid-variable-accepted", "a configuration was built although the field's own validator refuses the text in its variable", case)
+                        elif not isinstance(err, cc.ValidationError) or path.split(".")[-1] not in str(err):
+                            res.violate("C14:invalid-variable-error", "an invalid variable did not make construction fail with a validation error naming the field",
+                                        dict(case, error="%s: %s" % (type(err).__name__, str(err)[:100])))
+                        continue
+                    if err is not None:
+                        res.violate("C14:valid-variable-refused", "construction failed although the variable holds a text the field accepts: %s" % type(err).__name__, dict(case, error=str(err)[:100]))
+                        continue
+                    held = cfg[path]
+                    if kind == "challenge":
+                        good = isinstance(held, DigestValue)
+                        if good:
+                            try:
+                                held.challenge(text)
+                            except Exception:  # noqa
+                                good = False
+                    else:
+                        good = held == text
+                    if not good:
+                        res.violate("C14:variable-not-held", "the field does not hold the validated variable", dict(case, held=repr(held)[:80]))
+                        continue
+                    # a document loaded afterwards does not override it; a command-line override does
+                    try:
+                        doc = {"secret": "from-document"} if "." not in path else {"auth": {"secret": "from-document"}}
+                        if kind == "loglevel":
+                            doc = {"secret": "info"} if "." not in path else {"auth": {"secret": "info"}}
+                        if kind in ("string", "any", "hostname", "loglevel"):
+                            os.environ[var] = text
+                            try:
+                                cfg.load_tree(doc)
+                            finally:
+                                os.environ.pop(var, None)
+                            if cfg[path] != text:
+                                res.violate("C14:document-overrode-variable", "a document loaded after construction overrode a field whose variable is set", dict(case, held=repr(cfg[path])[:80]))
+                                continue
+                        os.environ[var] = text
+                        try:
+                            cc.cmdline_args_override(cfg, argparse.Namespace(**{path: "info" if kind == "loglevel" else "from-command-line"}))
+                        finally:
+                            os.environ.pop(var, None)
+                        now = cfg[path]
+                        if kind == "challenge":
+                            try:
+                                now.challenge("from-command-line")
+                                ok = True
+                            except Exception:  # noqa
+                                ok = False
+                        else:
+                            ok = now == ("info" if kind == "loglevel" else "from-command-line")
+                        if not ok:
+                            res.violate("C14:assignment-lost-against-variable", "an explicit command-line override lost against the environment variable (an override is an assignment)",
+                                        dict(case, held=repr(now)[:80]))
+                    except Exception as e:  # noqa
+                        res.violate("C14:assignment-lost-against-variable", "a later load / override raised %s" % type(e).__name__, dict(case, error=str(e)[:100]))
+
+
+def changed_environment_stream(ctx, res):
+    """the variable is looked at when the configuration is BUILT: a variable that is removed after construction still shields the field
+    from documents, a variable that appears after construction does not (recorded finding F59: the code looks at the process
+    environment again at every load)"""
+    import os
+    import cincoconfig as cc
+    var = "CINCO_T_C14E_PORT"
+    for nested in (False, True):
+        s = cc.Schema()
+        h = s.net if nested else s
+        h.port = cc.IntField(default=1, env=var)
+        path = "net.port" if nested else "port"
+        doc = {"net": {"port": 5}} if nested else {"port": 5}
+        os.environ[var] = "7000"
+        try:
+            cfg = s()
+        finally:
+            os.environ.pop(var, None)
+        case = {"stream": "changed-environment", "nested": nested, "history": "set at construction, removed, document loaded"}
+        res.case(stable(case), kind="changed-environment")
+        cfg.load_tree(doc)
+        if cfg[path] != 7000:
+            res.violate("C14:env-consulted-at-load:removed-after-build", "the variable was non-empty when the configuration was built, yet a document loaded afterwards overrode "
+                        "the field (the variable had been removed from the process environment in between)", dict(case, held=cfg[path]))
+        cfg2 = s()
+        os.environ[var] = "7000"
+        try:
+            cfg2.load_tree(doc)
+        finally:
+            os.environ.pop(var, None)
+        case2 = {"stream": "changed-environment", "nested": nested, "history": "unset at construction, set later, document loaded"}
+        res.case(stable(case2), kind="changed-environment")
+        if cfg2[path] != 5:
+            res.violate("C14:env-consulted-at-load:set-after-build", "the variable was unset when the configuration was built (no binding), yet a document loaded afterwards was "
+                        "not applied to the field (the variable had been set in between)", dict(case2, held=cfg2[path]))
+
+
 def run(ctx, n_quick=120, n_thorough=4000):
     res = Result()
     guard(res, "C14", names_stream, ctx, res)
@@ -437,6 +589,8 @@ def run(ctx, n_quick=120, n_thorough=4000):
     guard(res, "C14", special_stream, ctx, res, ctx.n(60, 1500))
     guard(res, "C14", list_item_stream, ctx, res)
     guard(res, "C14", per_configuration_stream, ctx, res)
+    guard(res, "C14", every_kind_stream, ctx, res)
+    guard(res, "C14", changed_environment_stream, ctx, res)
     return res
 
 
